@@ -190,6 +190,22 @@ func (r *lifecycleRun) waitSessions(n int) {
 func (r *lifecycleRun) one(cycle, steps int) {
 	r.sink.Reset("cycle", cycle)
 	r.sess = []*lcSess{r.newSess(""), r.newSess("")}
+	if cycle == 0 {
+		// directed prefix: every definition that collides with another one part-way through its resource list is
+		// registered while its opponent is live (refused, rolled back completely), by the other session and by the same one
+		byID := map[string]lcDef{}
+		for _, d := range r.cat {
+			byID[d.id] = d
+		}
+		for _, pair := range [][2]string{{"http1", "http2"}, {"http1", "http3"}, {"https1", "https2"}, {"tcp1", "tcp1b"}, {"mux1", "mux2"}} {
+			r.register(r.sess[0], byID[pair[0]])
+			r.snapshot()
+			r.register(r.sess[1], byID[pair[1]])
+			r.snapshot()
+			r.register(r.sess[0], byID[pair[1]])
+			r.snapshot()
+		}
+	}
 	for st := 0; st < steps; st++ {
 		i := r.rnd.Intn(len(r.sess))
 		s := r.sess[i]
